@@ -11,7 +11,7 @@ RULE = (
     "value cells): read completely (yield mode + close; raise mode through cutplace.rows), read and abandon after k = 0, 1, "
     "2 items (generator and reader closed, or everything just dropped), read without closing, two complete runs of one Reader, a Reader created before the history begins and read at its turn, reader closed without "
     "iterating, validate with limit 0, validate, write rows without close, write and close, CutplaceApp.validate (the command line's per-file step) - 60 operations - on CIDs with "
-    "IsUnique, DistinctCount, or both (delimited) and a fixed CID without a declared line delimiter whose data sets end their lines with CR LF. Oracle: history + model where the model is the implementation with fresh state: the "
+    "IsUnique, DistinctCount, or both (delimited) a fixed CID without a declared line delimiter whose data sets end their lines with CR LF, and a CID whose checks were handed over through Cid.add_check(). Oracle: history + model where the model is the implementation with fresh state: the "
     "outcome of the last operation of every history (items, rejections with row numbers, end-of-data result, written text, "
     "counters) must equal the outcome of the same operation on a freshly loaded CID. Quick: all histories of length <= 2 "
     "plus random ones of length 3-4; thorough: all of length <= 3 plus random ones of length 5-8. Plus pairs of runs (reader / writer over the three "
@@ -33,6 +33,7 @@ CIDS = {
     # fixed data without a declared line delimiter ("any"): the data sets are read with CR LF line ends and written
     # with the platform's line end - what a writer resolved for itself must not become part of the CID
     "fixed-unique": [{"desc": "u", "type": "IsUnique", "fields": ["key"]}],
+    "api-both": [{"desc": "u", "type": "IsUnique", "fields": ["key"]}, {"desc": "d", "type": "DistinctCount", "field": "val", "op": ">=", "n": 2}],
     "unique": [{"desc": "u", "type": "IsUnique", "fields": ["key"]}],
     "distinct": [{"desc": "d", "type": "DistinctCount", "field": "val", "op": ">=", "n": 2}],
     "both": [{"desc": "u", "type": "IsUnique", "fields": ["key"]}, {"desc": "d", "type": "DistinctCount", "field": "val", "op": ">=", "n": 2}],
@@ -268,6 +269,17 @@ def fresh_outcome(cid_kind, op):
 
 
 def new_cid(cid_kind):
+    if cid_kind.startswith("api-"):
+        # the checks handed over as objects through Cid.add_check() (docs/api.rst) instead of being declared in C rows
+        from cutplace import checks
+
+        cid = gen.load_cid(RM.CidModel("delimited", FIELDS, []))
+        for c in CIDS[cid_kind]:
+            if c["type"] == "IsUnique":
+                cid.add_check(checks.IsUniqueCheck(c["desc"], ", ".join(c["fields"]), cid.field_names))
+            else:
+                cid.add_check(checks.DistinctCountCheck(c["desc"], "%s %s %d" % (c["field"], c["op"], c["n"]), cid.field_names))
+        return cid
     if cid_kind.startswith("fixed"):
         return gen.load_cid(RM.CidModel("fixed", FIXED_FIELDS, CIDS[cid_kind], line_delimiter=None))
     return gen.load_cid(RM.CidModel("delimited", FIELDS, CIDS[cid_kind]))
